@@ -4,7 +4,7 @@ from ..rules import r10
 
 
 def run(ctx: Ctx) -> list[Ob]:
-    return r10.run(ctx)
+    return r10.run(ctx) + r10.r10g(ctx)
 
 
 SPEC = PropSpec(
@@ -18,12 +18,15 @@ SPEC = PropSpec(
         "nn.Parameter in the attribute its forward returns, and returns that attribute itself; R10d the module sequence of "
         "TorchDiAcyclicGraph is an nn.ModuleList and AddressBook registers its index tensors as buffers; R10e index tensors built in "
         "constructors are registered buffers; R10f no torch-side module overrides the state-dict / __setattr__ hooks. Each clause is a "
-        "necessary condition of 'the dictionary contains every learnable tensor' and of reload reproducing the outputs."
+        "necessary condition of 'the dictionary contains every learnable tensor' and of reload reproducing the outputs; R10g "
+        "(evaluation purity): no evaluation method of a torch-side module stores anything on self -- a tensor memoised during an "
+        "earlier evaluation is not part of the state dict and survives load_state_dict, so the reloaded circuit keeps answering "
+        "from the values it had before."
     ),
     not_decided=(
         "torch's own state_dict / load_state_dict semantics; that a fresh compilation enumerates modules in the same order; 'exactly "
         "once' for tensors reachable through pointers of derived circuits; numerical equality of the outputs."
     ),
     run=run,
-    floors={"R10a": 15, "R10b": 12, "R10c": 3, "R10d": 2, "R10e": 3, "R10f": 50},
+    floors={"R10a": 15, "R10b": 12, "R10c": 3, "R10d": 2, "R10e": 3, "R10f": 50, "R10g": 60},
 )
